@@ -148,7 +148,7 @@ def plan(tier):
              'or |E| greater than the digits of the rep' % nprog,
         bound=bound(t),
         assumptions=ASSUMPTIONS,
-        deadline_s=1500 if t else 280,
+        deadline_s=3000 if t else 900,
     )
 
 
